@@ -130,7 +130,7 @@ def run_nested(lib, case):
         if h is not w.h['p1'] or len(h.frames) != 2:
             return
         count['n'] += 1
-        if count['n'] == case['at']:
+        if count['n'] == case['at'] or case.get('every'):
             hooks1 = w.h['p1'].hooks
             w.h['p1'].hooks = {}
             w.h[tp].hooks = {k: inner_hook for k in ('cell', 'range', 'var', 'fn', 'call:NEST')}
@@ -140,6 +140,11 @@ def run_nested(lib, case):
                 w.h[tp].hooks = {}
                 w.h['p1'].hooks = hooks1
 
+    if case.get('prefail'):
+        # earlier evaluations on these parsers failed (syntax error, unknown name, error literal): nothing is left behind
+        for pp in sorted({'p1', tp}):
+            for bad in ({'raw': '1+*'}, F.binop('+', F.var('unknown_name'), N('1')), F.binop('+', N('1'), F.errlit('#REF!'))):
+                w.parse(pp, bad, solo_outcome(lib, pp, bad))
     kinds = ('cell', 'range', 'var', 'fn')
     if case.get('post'):   # the listener first hands its values to the setter, then nests
         kinds = tuple(k + ':post' for k in kinds)
@@ -438,6 +443,13 @@ def main(tier, replay=None):
                                         'target3': t3, 'at': at, 'post': post}
                                 ev, _ = run_nested(lib, case)
                                 traces.append({'tid': len(traces) + 1, 'ev': ev, 'case': case})
+                                if third is None and at == ats[0]:
+                                    # the same, nesting at every callback point of the outer evaluation (a sheet whose cells
+                                    # hold formulas), and after failed evaluations on the parsers involved
+                                    for extra in ({'every': True}, {'prefail': True}, {'every': True, 'prefail': True}):
+                                        c2 = dict(case, **extra)
+                                        ev, _ = run_nested(lib, c2)
+                                        traces.append({'tid': len(traces) + 1, 'ev': ev, 'case': c2})
     run.extra['nesting_histories'] = len(traces)
     # --- threads: all interleavings of two short evaluations on distinct parsers
     pairs = [(inners[0], inners[1]), (outers[0], inners[1]), (inners[5], inners[3]), (outers[3], outers[2]),
